@@ -3,5 +3,5 @@ From Coq Require Import Extraction ExtrOcamlBasic.
 From FV Require Import Base CacheModel.
 Extraction Language OCaml.
 Extraction "extracted/ex_K.ml" empty_world apply_edit stat cache_key cache_get cache_put lookup tree_of
-  hash_plain hash_cached stamp_determines_b mtime_determines_b preepoch_fraction_b
+  hash_plain hash_cached stamp_determines_b mtime_determines_b preepoch_fraction_b stepwise_b
   code_ms N.of_nat Z.of_N.
